@@ -102,7 +102,7 @@ UNIT = dict(
     harnesses=[
         dict(name="validator_update_execute_contract", obligation="CheckedValidatorUpdate::execute::ensures#entry+count+block-update-move-together+never-empty+signer-is-sudo+frame"),
         dict(name="canary_validator_update_ok_reachable", expect="fail"),
-        dict(name="removal_names_a_validator_cometbft_has", finding="K1", obligation="CheckedValidatorUpdate::execute::ensures#removal-in-update-batch-names-a-validator-CometBFT-has",
+        dict(name="removal_names_a_validator_cometbft_has", finding="K1", only_for=["C14"], obligation="CheckedValidatorUpdate::execute::ensures#removal-in-update-batch-names-a-validator-CometBFT-has",
              what="post-Aspen: ValidatorUpdate(add X) followed by ValidatorUpdate(remove X) in the same block leaves {X: power 0} in the block's update set although CometBFT never had X"),
     ],
     assumptions=["A-store typed accessors over the symbolic store; the per-block update set is modelled as a read-modify-write of the entry keyed by the action's verification key",
